@@ -45,7 +45,7 @@ theorem mkDaughters_ids (e : Event R) (ms : List (Cell R)) (next : Nat) :
   | cons m rest ih =>
     obtain ⟨h1, h2⟩ := ih (next + 2)
     constructor
-    · simp only [mkDaughters, List.map_cons, newborn, h1, List.length_cons]
+    · simp only [mkDaughters, List.map_cons, daughterOf, newborn, h1, List.length_cons]
       have : 2 * (rest.length + 1) = (2 * rest.length) + 1 + 1 := by ring
       rw [this, List.range'_succ, List.range'_succ]
     · simp only [mkDaughters, h2, List.length_cons]; ring
@@ -68,7 +68,7 @@ def IdsBelow (p : Pop R) : Prop := ∀ i ∈ p.ids, i < p.nextId
 theorem iterate_ids (fn : Fn R) (dt : R) (it : Nat) (p : Pop R) (e : Event R) :
     ∃ k, (iterate fn dt it p e).nextId = p.nextId + k ∧
       ∀ i ∈ (iterate fn dt it p e).ids, i ∈ p.ids ∨ (p.nextId ≤ i ∧ i < p.nextId + k) := by
-  unfold iterate midPop
+  unfold iterate midPop divPhase
   simp only []
   split_ifs with hdiv
   · obtain ⟨k, hk, hn⟩ := divisionRound_ids p e
@@ -128,7 +128,7 @@ theorem runFrom_append (fn : Fn R) (dt : R) (es₁ es₂ : List (Event R)) :
 /-- ids of the population between the internal-force phase and the removal phase -/
 theorem midPop_ids (fn : Fn R) (dt : R) (it : Nat) (p : Pop R) (e : Event R) :
     (midPop fn dt it p e).ids = p.ids ∨ (midPop fn dt it p e).ids = (divisionRound p e).ids := by
-  unfold midPop
+  unfold midPop divPhase
   simp only []
   split_ifs
   · right; exact map_grow_ids fn dt e.vol _
